@@ -1,10 +1,13 @@
 //! rsbdd-conform: binds the TLA+ specification under /verif/spec to the real rsbdd code.
 //!   replay-* : spec -> impl (TLC-generated cases/behaviours are stepped through the real code)
 //!   record-* : impl -> spec (the real code is driven; every call is logged as one ndjson event)
+mod lang;
 mod record_bdd;
 mod record_env;
+mod record_lang;
 mod replay_bdd;
 mod sets;
+mod syntax;
 mod util;
 
 use std::io::Write;
@@ -45,9 +48,45 @@ fn main() {
             drop(out);
             sets::exec(&args[2..])
         }
+        "replay-lang" => {
+            drop(out);
+            lang::replay(&args[2..])
+        }
+        "replay-fix" => {
+            drop(out);
+            lang::replay_fix(&args[2..])
+        }
+        "record-lang" => {
+            drop(out);
+            record_lang::record(&args[2..])
+        }
+        "record-text" => {
+            drop(out);
+            record_lang::record_text(&args[2..])
+        }
+        "exec-text" => {
+            drop(out);
+            record_lang::exec_text(&args[2..])
+        }
+        "exec-lang" => {
+            drop(out);
+            record_lang::exec(&args[2..])
+        }
+        "replay-tokens" => {
+            drop(out);
+            syntax::replay_tokens(&args[2..])
+        }
+        "replay-chars" => {
+            drop(out);
+            syntax::replay_chars(&args[2..])
+        }
         "exec-env" => {
             drop(out);
             record_env::exec(&args[2..])
+        }
+        "record-fp" => {
+            drop(out);
+            record_bdd::record_fp(&args[2..])
         }
         "exec-bdd" => {
             drop(out);
